@@ -303,7 +303,7 @@ pub fn run(ctx: &mut Ctx) -> Result<RunOut, Violation> {
         }
     } else {
         // Direct: poll the entity's own stream.
-        let (_f, waker) = crate::a_drain::new_waker();
+        let (wflag, waker) = crate::a_drain::new_waker();
         let mut cx = Context::from_waker(&waker);
         let r = catch(|| {
             let mut s = crf.get_range(a..b);
@@ -312,6 +312,8 @@ pub fn run(ctx: &mut Ctx) -> Result<RunOut, Violation> {
             let mut errs = 0;
             for _ in 0..(range_len + 8).min(400_000) {
                 match s.as_mut().poll_next(&mut cx) {
+                    // a cooperative yield (Pending after waking the task itself): poll again
+                    Poll::Pending if crate::a_drain::took_wake(&wflag) => continue,
                     Poll::Pending => {
                         steps.push(Step::Pending);
                         break;
@@ -679,13 +681,14 @@ fn run_concurrent(ctx: &mut Ctx) -> Result<RunOut, Violation> {
             sched.start_thread(tid);
             crate::sysseam::register(fd, &sched);
             let r = catch(|| {
-                let (_f, waker) = crate::a_drain::new_waker();
+                let (wflag, waker) = crate::a_drain::new_waker();
                 let mut cx = Context::from_waker(&waker);
                 let mut s = crf.get_range(a..b);
                 let mut bytes = Vec::new();
                 let mut steps = Vec::new();
                 for _ in 0..(b - a + 8).min(100_000) {
                     match s.as_mut().poll_next(&mut cx) {
+                        Poll::Pending if crate::a_drain::took_wake(&wflag) => continue,
                         Poll::Pending => {
                             steps.push(Step::Pending);
                             break;
@@ -820,7 +823,7 @@ fn run_huge(ctx: &mut Ctx) -> Result<RunOut, Violation> {
     if crf.len() != len {
         return violation(prop, "len-differs", format!("{desc}: len() = {}", crf.len()));
     }
-    let (_f, waker) = crate::a_drain::new_waker();
+    let (wflag, waker) = crate::a_drain::new_waker();
     let mut cx = Context::from_waker(&waker);
     let r = catch(|| -> Result<(), String> {
         let mut off = a;
@@ -880,7 +883,8 @@ fn run_huge(ctx: &mut Ctx) -> Result<RunOut, Violation> {
                     }
                     Poll::Ready(Some(Err(e))) => return Err(format!("poll #{} on an unmodified file failed: {e:?}", i + 1)),
                     Poll::Ready(None) => return Err(format!("stream ended after {} of {} bytes", off - a, b - a)),
-                    Poll::Pending => return Err("Pending".into()),
+                    Poll::Pending if crate::a_drain::took_wake(&wflag) => continue,
+                        Poll::Pending => return Err("Pending".into()),
                 }
             }
         }
@@ -980,7 +984,7 @@ fn run_sequence(ctx: &mut Ctx) -> Result<RunOut, Violation> {
         sig = mix(sig, kind as u64 ^ (nr as u64) << 4);
         let intact = ranges.iter().all(|r| r.1 <= cur_len);
         let desc = format!("file of {len} bytes (now {cur_len}), history {history:?}, step {}: {} {ranges:?}", step + 1, ["get_range", "serve single range", "serve multi-range"][kind as usize]);
-        let (_f, waker) = crate::a_drain::new_waker();
+        let (wflag, waker) = crate::a_drain::new_waker();
         let mut cx = Context::from_waker(&waker);
         // Runs the step; returns (bytes or segments, ended cleanly, saw error).
         let crf2 = crf.clone();
@@ -1011,6 +1015,7 @@ fn run_sequence(ctx: &mut Ctx) -> Result<RunOut, Violation> {
                             clean = true;
                             break;
                         }
+                        Poll::Pending if crate::a_drain::took_wake(&wflag) => continue,
                         Poll::Pending => return Err("Pending".into()),
                     }
                 }
@@ -1036,6 +1041,7 @@ fn run_sequence(ctx: &mut Ctx) -> Result<RunOut, Violation> {
                             clean = true;
                             break;
                         }
+                        Poll::Pending if crate::a_drain::took_wake(&wflag) => continue,
                         Poll::Pending => return Err("Pending".into()),
                     }
                 }
